@@ -55,6 +55,8 @@ def menu(f, with_queries=False, full=True):
         if conv:
             add('slice', False, sel=[['VAR', ['i', -1]]])     # out-of-domain probe
         add('slice', dims[dl] >= 1, sel=[[dl, ['l', [0, -1]]]])
+        # the documented short names (f.slice / f.apply / f.subset) are the same operations
+        add('slice', dims[dl] >= 1, sel=[[dl, ['s', -1, None, None]]], alias=True)
         # zipped selection over the first two dimensions some variable carries together
         pair = None
         for vk_, (vd, dt) in vars_.items():
@@ -76,6 +78,8 @@ def menu(f, with_queries=False, full=True):
             num = _numeric_along(vars_, d)
             add('apply', num and dims[d] >= 1, dim=d, fn=['r', 'mean'])
             add('apply', num and dims[d] >= 1, dim=d, fn=['r', 'max'])
+            if d == d0:
+                add('apply', num and dims[d] >= 1, dim=d, fn=['r', 'min'], alias=True)
             add('apply', num and dims[d] >= 1 and lens_ok and not (conv and dims[d] <= 1),
                 dim=d, fn=['f', 'diff'])
         # convention files: only stacking in time is documented (the vertical
@@ -88,6 +92,7 @@ def menu(f, with_queries=False, full=True):
         v0 = vn[0]
         add('subset', True, keys=[v0])
         add('subset', True, keys=[v0], exclude=True)
+        add('subset', True, keys=[vn[-1]], alias=True)
         newv = next((n for n in ('RN1', 'RN2') if n not in vars_), None)
         if newv:
             add('renameVariable', True, old=v0, new=newv)
@@ -168,14 +173,15 @@ def do_op(f, op):
         return f.copy()
     if name == 'slice':
         kw = OrderedDict((d, rops.sel_to_py(tuple(s))) for d, s in op['sel'])
-        return f.sliceDimensions(**kw)
+        return f.slice(**kw) if op.get('alias') else f.sliceDimensions(**kw)
     if name == 'apply':
         fn = op['fn']
-        return f.applyAlongDimensions(**{op['dim']: fn[1] if fn[0] == 'r' else rops.FUNCS[fn[1]]})
+        return (f.apply if op.get('alias') else f.applyAlongDimensions)(
+            **{op['dim']: fn[1] if fn[0] == 'r' else rops.FUNCS[fn[1]]})
     if name == 'stack':
         return f.stack(f, op['dim'])
     if name == 'subset':
-        return f.subsetVariables(list(op['keys']), exclude=op.get('exclude', False))
+        return (f.subset if op.get('alias') else f.subsetVariables)(list(op['keys']), exclude=op.get('exclude', False))
     if name == 'renameVariable':
         return f.renameVariable(op['old'], op['new'])
     if name == 'renameDimension':
